@@ -45,12 +45,13 @@ enum OpCode : uint8_t {
   NOP,                     // harness scheduling point only
   S_MANY,                  // a: lock, arg: n - this thread takes n shared grants on the lock (guards are not bound to threads) and keeps them
   S_MANY_REL,              // a: lock - releases them all
+  PARK,                    // the thread acts only when a preemption of another thread names it (or nobody else can run)
   HOLD,                    // arg: stay where we are (typically inside a critical section) for arg interpreter-level yields
   kNumOps
 };
 inline const char *kOpName[] = {"ACQ_S", "ACQ_SIX", "ACQ_X", "REL", "DROP", "MOVE", "MOVECTOR", "SELFMOVE", "UPG", "DWN", "READ",
                                 "WRITE", "GETVER", "COPYOPT", "OPTREAD", "VERIFY", "TRY_S", "TRY_SIX", "TRY_X", "PREP", "CVERIFY",
-                                "SETVER", "XVER", "NOP", "S_MANY", "S_MANY_REL", "HOLD"};
+                                "SETVER", "XVER", "NOP", "S_MANY", "S_MANY_REL", "PARK", "HOLD"};
 
 struct Op {
   uint8_t code = NOP;
@@ -99,7 +100,7 @@ to_text(const Case &c)
   }
   for (size_t t = 0; t < c.threads.size(); t++) {
     const auto &th = c.threads[t];
-    o << "thread " << t << " " << (th.sk == vsched::kBegin ? "begin" : th.sk == vsched::kAfterBody ? "after_body" : "after_exit") << " " << th.dep
+    o << "thread " << t << " " << (th.sk == vsched::kBegin ? "begin" : th.sk == vsched::kParked ? "parked" : th.sk == vsched::kAfterBody ? "after_body" : "after_exit") << " " << th.dep
       << "\n";
     for (const auto &op : th.ops) {
       o << "op " << t << " " << kOpName[op.code] << " " << static_cast<int>(op.a) << " " << static_cast<int>(op.b) << " "
@@ -151,7 +152,7 @@ from_text(const std::string &text, Case &c, std::string &err)
       ls >> t >> sk >> dep;
       if (t >= static_cast<size_t>(vsched::kMaxT)) continue;
       if (c.threads.size() <= t) c.threads.resize(t + 1);
-      c.threads[t].sk = sk == "begin" ? vsched::kBegin : sk == "after_body" ? vsched::kAfterBody : vsched::kAfterExit;
+      c.threads[t].sk = sk == "begin" ? vsched::kBegin : sk == "parked" ? vsched::kParked : sk == "after_body" ? vsched::kAfterBody : vsched::kAfterExit;
       c.threads[t].dep = dep;
     } else if (w == "op") {
       size_t t = 0;
@@ -211,6 +212,7 @@ struct Outcome {
   bool validate_raced = false;   // a validation (VERIFY/TRY/CVERIFY) ran after another thread committed since the sample, or failed
   bool validated_ok = false;     // a validation succeeded
   bool x_end_dtor = false, x_end_move = false, x_end_dwn = false, wrapped = false;
+  uint32_t lsteps[vsched::kMaxT] = {};  // scheduling points each thread passed in the main phase (the sweeps enumerate them)
   uint32_t many_shared = 0;      // largest number of shared grants one thread held at once through S_MANY
   bool prep_fallback = false;    // PrepareRead returned an owning guard
   bool prep_seen_x = false;      // PrepareRead called while X registered
